@@ -11,13 +11,13 @@ from . import structural as ST, recorder
 from .common import Machinery
 
 
-def record(wd, select=None):
+def record(wd, select=None, stop_at_first_failure=True):
     repo = os.environ.get("VERIF_REPO", "/repo")
     root = os.environ.get("VERIF_ROOT", "/verif")
     out = os.path.join(wd, "repo-traces.ndjson")
     env = dict(os.environ, PYTHONPATH=f"{root}:{repo}", EG_TRACE_OUT=out, PYTHONHASHSEED="0")
-    cmd = [sys.executable, "-m", "pytest", "-q", "-p", "no:cacheprovider", "-p", "harness.recorder", "-x",
-           select if select else "tests"]
+    cmd = [sys.executable, "-m", "pytest", "-q", "-p", "no:cacheprovider", "-p", "harness.recorder"] \
+        + (["-x"] if stop_at_first_failure else []) + [select if select else "tests"]
     p = subprocess.run(cmd, cwd=repo, env=env, capture_output=True, text=True, timeout=1200)
     if not os.path.exists(out + ".stats"):
         raise Machinery(f"recording the repository's tests failed: {p.stdout[-400:]} {p.stderr[-400:]}")
@@ -33,8 +33,8 @@ def record(wd, select=None):
     return traces, stats
 
 
-def check(run, prop, wd, select=None):
-    traces, stats = record(wd, select)
+def check(run, prop, wd, select=None, label="repository_tests_as_traces", sig="repo-test"):
+    traces, stats = record(wd, select, stop_at_first_failure=(sig == "repo-test"))
     consts = dict(recorder.POOL)
     recs, owner = [], {}
     for t in traces:
@@ -50,17 +50,26 @@ def check(run, prop, wd, select=None):
             continue
         test, j = owner[v["id"]]
         r = recs[v["id"] - 1]
-        run.violation(f"repo-test:{r['c']['op']}|{'+'.join(sorted(v['fail']))}",
+        run.violation(f"{sig}:{r['c']['op']}|{'+'.join(sorted(v['fail']))}",
                       f"in {test}, call #{j + 1} {r['c']['op']}{r['c']['a']} violates {'+'.join(sorted(v['fail']))}",
-                      {"kind": "repo-test", "test": test, "call_index": j, "call": r["c"],
+                      {"kind": sig, "test": test, "call_index": j, "call": r["c"],
                        "observed": {"pre": r["pre"], "res": r["res"], "post": r["post"]}, "expected": v.get("exp")})
     for r in recs:
-        run.count_class(f"repo-test:{r['c']['op']}")
+        run.count_class(f"{sig}:{r['c']['op']}")
     run.traces += len(traces)
     run.evaluations += len(recs)
     stats.update({"traces_judged": len(traces), "calls_judged": len(recs), "skipped_by_judge": skipped})
-    run.extra["repository_tests_as_traces"] = stats
+    run.extra[label] = stats
     if traces:
         t = traces[len(traces) // 2]
         run.sample({"repository_test": t["test"], "calls": [r["c"] for r in t["records"]][:10]})
+    return stats
+
+
+def check_idioms(run, prop, wd):
+    """usage idioms written for this purpose (/verif/idioms: scripts without assertions) recorded and judged the same way"""
+    root = os.environ.get("VERIF_ROOT", "/verif")
+    stats = check(run, prop, wd, select=os.path.join(root, "idioms"), label="usage_idioms_as_traces", sig="idiom")
+    if stats.get("kept", 0) < stats.get("tests", 0) or not stats.get("tests"):
+        raise Machinery(f"usage idioms: {stats.get('kept')} of {stats.get('tests')} scenarios could be recorded ({stats.get('reasons')})")
     return stats
